@@ -552,7 +552,7 @@ func vhModelDataset(s *Server, m *vmDB, d int) {
 }
 
 // vhModelCommand draws one command: operation, collection and options by choice, the id as a symbolic byte.
-func vhModelCommand() vmCmd {
+func vhModelCommand(symbolicID bool) vmCmd {
 	c := vmCmd{op: vchoose(vmNumOps)}
 	if c.op == vmFlushdb {
 		return c
@@ -565,7 +565,12 @@ func vhModelCommand() vmCmd {
 		c.key2 = vmKeys[vchoose(3)]
 		return c
 	case vmPdel:
-		b := vnondetByte()
+		b := byte('1')
+		if symbolicID {
+			b = vnondetByte()
+		} else if vnondetBool() {
+			b = '2'
+		}
 		vassume(b != '*' && b != '?' && b != '[' && b != '\\')
 		switch vchoose(3) {
 		case 0:
@@ -577,7 +582,11 @@ func vhModelCommand() vmCmd {
 		}
 		return c
 	}
-	c.id = vnondetStringN(1)
+	if symbolicID {
+		c.id = vnondetStringN(1)
+	} else {
+		c.id = [2]string{"1", "2"}[vchoose(2)]
+	}
 	switch c.op {
 	case vmSetPoint, vmSetNX, vmSetEX:
 		c.p = vchoose(len(vmPointArgs))
@@ -597,7 +606,7 @@ func vhModelCommand() vmCmd {
 	return c
 }
 
-//verif:cfg b_datasets=5(empty|point+field|deadline+string+field|JSON_string+field+deadline,2_collections|3_objects_2_collections) quick.b_commands=1 thorough.b_commands=2 b_operations=19(SET_point/point+z/BOUNDS/HASH/GeoJSON/string/FIELD/NX/XX/EX,FSET,FSET_XX,FSET_two_pairs(same_or_different_names),DEL,PDEL,DROP,RENAME,RENAMENX,FLUSHDB,EXPIRE,PERSIST,JSET,JDEL) b_ids=one_symbolic_byte b_collections=a|b(|c_as_RENAME_target) b_reads_after=KEYS,TYPE,SCAN_IDS,GET_WITHFIELDS,TTL,EXISTS,FEXISTS,FGET,JGET ignorego=1 maxpaths=2000000
+//verif:cfg b_datasets=5(empty|point+field|deadline+string+field|JSON_string+field+deadline,2_collections|3_objects_2_collections) quick.b_commands=1 thorough.b_commands=2 b_operations=19(SET_point/point+z/BOUNDS/HASH/GeoJSON/string/FIELD/NX/XX/EX,FSET,FSET_XX,FSET_two_pairs(same_or_different_names),DEL,PDEL,DROP,RENAME,RENAMENX,FLUSHDB,EXPIRE,PERSIST,JSET,JDEL) b_ids=one_symbolic_byte(first_command),_1|2(second_command) thorough.maxwall=7000 b_collections=a|b(|c_as_RENAME_target) b_reads_after=KEYS,TYPE,SCAN_IDS,GET_WITHFIELDS,TTL,EXISTS,FEXISTS,FGET,JGET ignorego=1 maxpaths=2000000
 func VH_C01_model() {
 	s := vhModelServer()
 	m := &vmDB{}
@@ -608,7 +617,7 @@ func VH_C01_model() {
 	}
 	var probes []string
 	for i := 0; i < n; i++ {
-		c := vhModelCommand()
+		c := vhModelCommand(i == 0)
 		exp, ok := m.apply(c)
 		if !ok {
 			return // outside the model's reading (JSET/JDEL on geometries or non-JSON strings)
